@@ -28,9 +28,8 @@ def build(case):
     mi = match_sections(ds, f.matching) if f.matching else None
     X, y, w, _ = calibrate_double_ended_solver(ds, f.sections, kw["st_var"], kw["ast_var"], kw["rst_var"], kw["rast_var"], solver="external",
                                                matching_indices=mi, trans_att=list(f.trans_att), nta=len(f.trans_att))
-    Xd = X.toarray() * np.sqrt(w)[:, None]
-    Xd = Xd / np.maximum(np.linalg.norm(Xd, axis=0), 1e-300)
-    if np.linalg.matrix_rank(Xd, tol=1e-9) < Xd.shape[1] - len(f.trans_att):
+    from vlib import refdesign
+    if not refdesign.identifiable(case):   # decided on the generator's own layout, not on matrices produced by the code under test
         raise NotIdentifiable()
     va = case.variance_arrays()
     st, ast, rst, rast = (ds[k].values for k in ("st", "ast", "rst", "rast"))
